@@ -177,6 +177,10 @@ def install(extra_env: dict | None = None):
         if p not in sys.path:
             sys.path.insert(0, p)
     sys.path.append(str(STUBS))
+    pydeps = Path(__file__).resolve().parent.parent / "build" / "pydeps"
+    if not (pydeps / "numpy").exists():
+        raise RuntimeError("numpy is not installed in /verif/build/pydeps: run `make -C /verif setup`")
+    sys.path.append(str(pydeps))
     sys.modules["aiodocker"] = None  # type: ignore  # keep un-importable
     sys.meta_path.append(_Finder())
     try:
